@@ -72,15 +72,21 @@ def run_case(case):
         t.count('singleton_class_cases')
     cls_idx = np.repeat(np.arange(K), counts)
     means = rng.integers(-30, 31, (K, T)).astype(float)
+    offset = 0.0
+    if prec == 'float64' and rng.random() < 0.3:
+        # a common DC offset much larger than the spread (raw ADC codes): quadratic forms expanded around 0 cancel catastrophically
+        offset = float(rng.choice([5000.0, 40000.0]))
+        means = means + offset
+        t.count('large_offset_cases')
     A = rng.normal(0, 1, (T, T)) + 2.5 * np.eye(T)                # full-rank noise shaping
     noise = rng.normal(0, 1, (len(cls_idx), T)) @ A
     bsamples = means[cls_idx] + noise
     tdtype = 'float64'
     if case['traces'] == 'int':
         bsamples = np.round(bsamples * 2)
-        tdtype = ['int16', 'int32', 'float32', 'float64'][int(rng.integers(4))]
+        tdtype = ['int16', 'int32', 'float32', 'float64'][int(rng.integers(4))] if not offset else ['int32', 'float64'][int(rng.integers(2))]
     else:
-        tdtype = ['float32', 'float64'][int(rng.integers(2))]
+        tdtype = ['float32', 'float64'][int(rng.integers(2))] if not offset else 'float64'
     p = rng.permutation(len(cls_idx))
     bsamples = bsamples[p].astype(tdtype)
     bvalues = np.array(declared)[cls_idx][p].astype(('int8' if rng.random() < 0.5 else 'int16') if min(declared) < 0 else 'uint8' if max(declared) < 256 else 'uint16')
